@@ -18,7 +18,7 @@ EVAL_QUERIES = [
     "$[?@.a == undefined || @.b in missing]", "$[?@.* in @.b]", "$[?@.a contains @.*]",
 ]
 SOUP = [
-    "$[?@.a =~ /(?u)x/a]", "$[?@.a =~ /(?a)x/]", "$[?@.a =~ /(?i)x/m]", "$[?@.a == 1.0e400]", "$.._x", "$..and", "$..#", "$.. _x", "$[?@ =~ /[/]", "$[?@ =~ /(/]", "$[?@ =~ /*/]", "$[?@ =~ /a{2,1}/]", "$[?@ =~ /\\/]", "$[?@ =~ /(?P<n>a)(?P<n>b)/]", "$[?@ =~ /a/x]",
+    "$[?@.a =~ /a{99999999999}/]", "$[?match(@.a, 'a{99999999999}')]", "$[?@.a =~ /(?u)x/a]", "$[?@.a =~ /(?a)x/]", "$[?@.a =~ /(?i)x/m]", "$[?@.a == 1.0e400]", "$.._x", "$..and", "$..#", "$.. _x", "$[?@ =~ /[/]", "$[?@ =~ /(/]", "$[?@ =~ /*/]", "$[?@ =~ /a{2,1}/]", "$[?@ =~ /\\/]", "$[?@ =~ /(?P<n>a)(?P<n>b)/]", "$[?@ =~ /a/x]",
     "$[?@.a == 1e400]", "$[?@.a == -1e400]", "$[?@.a == 1e309]", "$[?@.a == 1.5e400]", "$[?@.a == 1e-400]", "$[?@.a == 9" + "9" * 400 + "]",
     "$[?@.a == 'abc]", '$[?@.a == "abc]', "$['abc]", "$[\"a", "$[?@ =~ /abc]", "$[?@ =~ /]", "$[?@.a == '\\u12']", "$['\\x']", '$["\\ud800"]',
     "$['\\ud83d\\ude00']", "$[?@.a == '\\']", "$.", "$..", "$...", "$.[", "$[?", "$[?(", "$[?@.a ==]", "$[?== 1]", "$[?@.a && ]", "$[-]", "$[+1]",
@@ -47,6 +47,28 @@ def soup(text: str) -> Obligation:
         return {"status": "discharged", "detail": f"{text[:60]!r} {what}"}
 
     return Obligation(f"soup:{text[:40]}", run, kind="deterministic-probe (not solver-decided)")
+
+
+PTR_PROBES = ["/" + "1" * 4301, "/a/" + "9" * 5000, "/-" + "1" * 4301, "/" + "0" * 4301, "/1" + "_" * 10, "/\\", "/\\u12", "/\\ud800", "/%", "\x00", "/" + "\U0010ffff"]
+PATCH_PROBES = ["not json", "[", "", "{}", "[1]", '[{"op": "add"}]', '[{"op": "add", "path": "/" , "value": 1}, 1]', "null", '"x"',
+                '[{"op": "add", "path": "/' + "1" * 4301 + '", "value": 1}]', '[{"op": "add", "path": "/a/\\\\", "value": 1}]']
+
+
+def probe(kind: str, fn: str, arg: str) -> Obligation:
+    def run() -> Dict[str, Any]:
+        import importlib
+        import os
+
+        os.environ.setdefault("VERIF_P", "{}")
+        h = importlib.import_module("harness.c06")
+        rep = {"harness": H, "fn": fn, "params": {}, "call": f"{fn}({arg!r})"}
+        try:
+            getattr(h, fn)(arg)
+        except Exception as e:  # noqa: BLE001
+            return {"status": "violated", "detail": f"{fn}({arg[:40]!r}...) raised {type(e).__name__}: {str(e)[:100]}", "replay": rep}
+        return {"status": "discharged", "detail": f"{fn}({arg[:40]!r})"}
+
+    return Obligation(f"{kind}:{arg[:30]}", run, kind="deterministic-probe (not solver-decided)")
 
 
 def plan(tier: str, seed: int) -> Plan:
@@ -88,6 +110,7 @@ def plan(tier: str, seed: int) -> Plan:
     from props import lane_r
 
     obls = lane_r.c06_obligations() + [soup(t) for t in SOUP]
+    obls += [probe("ptr", "pointer_only_family", t) for t in PTR_PROBES] + [probe("patch", "patch_only_family", t) for t in PATCH_PROBES]
     return Plan(
         conditions=conds,
         obligations=obls,
